@@ -95,12 +95,28 @@ structure Conn where
   /-- the client went away -/
   peerGone : Bool
   calls : List Call
+  /-- the server has a `TlsAcceptor`: `ServerIoStream` runs a TLS handshake on this connection (in
+  a `JoinSet` task) before it yields it to the accept loop -/
+  tls : Bool := false
+  /-- `ServerIoStream` took the TCP stream from the inner incoming and spawned its handshake -/
+  inSet : Bool := false
+  /-- the handshake task finished with `Ok(io)` (still in the `JoinSet` until the loop takes it) -/
+  tlsOk : Bool := false
+  /-- the client has started to speak TLS (a stalled client has not) -/
+  cliGo : Bool := false
+  /-- what the client sends is not a TLS handshake -/
+  cliBad : Bool := false
 deriving Repr
 
 def Conn.new (pending afterSig : Bool) : Conn :=
   { pending := pending, offeredAfterSig := afterSig, accepted := false,
     watcher := false, hs := false, sawSig := false, ageReady := false, ageFired := false,
     graceful := false, final := false, closed := false, peerGone := false, calls := [] }
+
+/-- a connection offered to a server configured with TLS; `go` = the client starts its handshake
+at once, `bad` = the client sends something that is not TLS -/
+def Conn.newTls (pending afterSig go bad : Bool) : Conn :=
+  { Conn.new pending afterSig with tls := true, cliGo := go, cliBad := bad }
 
 /-- hyper's connection future resolves: the peer left, or graceful shutdown was requested and
 either the handshake had not completed, or the final GOAWAY is out and every accepted stream has
@@ -160,12 +176,14 @@ def incomingBranch (s : State) : Bool := s.loopRunning && !(s.cfgBiased && sigBr
 
 inductive Label where
   -- environment
-  | offer | sigFire | endIncoming | acceptErr
+  | offer | offerTls (go bad : Bool) | clientHello (c : Nat) | sigFire | endIncoming | acceptErr
   | issue (c : Nat) (chunks : List (List Item)) (req : Nat)
   | reqSend (c j : Nat)
   | permit (c j : Nat) | freeRun | peerDrop (c : Nat) | cancel (c j : Nat) | ageTick (c : Nat)
   -- tonic: serve_internal
   | loopSig | loopAccept (c : Nat) | loopErr | loopEnd | afterLoop | resolve
+  -- tonic: ServerIoStream with a TlsAcceptor (io_stream.rs); the handshake itself is rustls
+  | tlsTake (c : Nat) | tlsDone (c : Nat) | tlsFail (c : Nat)
   -- tonic: serve_connection
   | connSig (c : Nat) | connAge (c : Nat) | connBreak (c : Nat) | connDropWatcher (c : Nat)
   -- hyper / h2 (trusted contract)
@@ -176,7 +194,8 @@ deriving Repr
 /-- Steps taken by the server process itself (tonic + hyper + handler code), as opposed to inputs
 from peers, the scenario and the clock. -/
 def Label.internal : Label → Bool
-  | .offer | .sigFire | .endIncoming | .acceptErr | .issue .. | .reqSend .. | .permit .. | .freeRun
+  | .offer | .offerTls .. | .clientHello .. | .sigFire | .endIncoming | .acceptErr | .issue ..
+  | .reqSend .. | .permit .. | .freeRun
   | .peerDrop .. | .cancel .. | .ageTick .. => false
   | _ => true
 
@@ -207,6 +226,11 @@ def step (s : State) : Label → Option State
   | .offer =>
     -- a connection offered to an ended stream / a dropped stream is simply dropped
     some { s with conns := s.conns ++ [Conn.new (!s.ended && !s.resolved) s.sigReady] }
+  | .offerTls go bad =>
+    some { s with conns := s.conns ++ [Conn.newTls (!s.ended && !s.resolved) s.sigReady go bad] }
+  | .clientHello c =>
+    -- a client that had connected without speaking starts its TLS handshake
+    updConn s c (fun cn => cn.tls && !cn.cliGo) (fun cn => { cn with cliGo := true })
   | .sigFire =>
     if s.cfgGraceful && !s.sigReady then some { s with sigReady := true } else none
   | .endIncoming => if !s.ended then some { s with ended := true } else none
@@ -238,8 +262,9 @@ def step (s : State) : Label → Option State
     else none
   | .loopAccept c =>
     -- `Some(Ok(io))` … `serve_connection(.., graceful.then(|| signal_rx.clone()), ..)`
+    -- with TLS: `SelectOutput::Io(io)`, a finished handshake taken out of the `JoinSet`
     if incomingBranch s then
-      updConn s c (fun cn => cn.pending)
+      updConn s c (fun cn => cn.pending && (!cn.tls || cn.tlsOk))
         (fun cn => { cn with pending := false, accepted := true, watcher := s.cfgGraceful })
     else none
   | .loopErr =>
@@ -248,8 +273,11 @@ def step (s : State) : Label → Option State
       some { s with pendingErrs := s.pendingErrs - 1 }
     else none
   | .loopEnd =>
-    -- `None => break`: only once everything queued before the end has been consumed
-    if incomingBranch s && s.ended && s.pendingErrs == 0 && s.conns.all (fun cn => !cn.pending)
+    -- `None => break`: only once everything queued before the end has been consumed.  With TLS
+    -- (`SelectOutput::Done`) handshakes still in the `JoinSet` do not hold the end back: they are
+    -- abandoned (dropped with `incoming` when the serve future returns).
+    if incomingBranch s && s.ended && s.pendingErrs == 0
+        && s.conns.all (fun cn => !cn.pending || cn.inSet)
     then some { s with loopRunning := false }
     else none
   | .afterLoop =>
@@ -265,6 +293,22 @@ def step (s : State) : Label → Option State
                     conns := s.conns.map (fun cn =>
                       { cn with pending := false }) }
     else none
+  -- ---------------------------------------------------------------- ServerIoStream (TLS)
+  | .tlsTake c =>
+    -- `SelectOutput::Incoming(stream)`: `tasks.spawn(tls.accept(stream))`, wake, `Pending`.
+    -- `ServerIoStream` is polled only from the accept loop's `incoming.next()` branch.
+    if incomingBranch s then
+      updConn s c (fun cn => cn.tls && cn.pending && !cn.inSet) (fun cn => { cn with inSet := true })
+    else none
+  | .tlsDone c =>
+    -- the handshake task (spawned: it runs whether or not the loop still polls) finishes `Ok`
+    updConn s c (fun cn => cn.inSet && cn.pending && !cn.tlsOk && cn.cliGo && !cn.cliBad
+                           && !cn.peerGone)
+      (fun cn => { cn with tlsOk := true })
+  | .tlsFail c =>
+    -- the handshake fails (`SelectOutput::TlsErr`: logged, the loop goes on); the IO is dropped
+    updConn s c (fun cn => cn.inSet && cn.pending && !cn.tlsOk && (cn.cliBad || cn.peerGone))
+      (fun cn => { cn with pending := false })
   -- ---------------------------------------------------------------- serve_connection
   | .connSig c =>
     -- `_ = &mut sig => conn.as_mut().graceful_shutdown()`
